@@ -48,6 +48,13 @@ def run(ctx) -> None:
     for fq in sorted(effects.sites):
         fn = prog.function(fq)
         for s in effects.sites[fq]:
+            if s.detail.get("via") in ("read_text", "write_text", ".write_text") and fn.module.name in ENGINES + ("rewrite",) and fq in reach:
+                # pathlib shortcuts open in text mode with newline=None: line endings are translated
+                n_rw += 1
+                ctx.bad("R1", f"{fq}: file opened with newline translation (Path.{s.detail['via']})",
+                        f"`{unparse(s.node)[:90]}` reads/writes with universal newlines: CRLF / CR files are rewritten with different line endings",
+                        loc=fn.loc(s.node), what=f"{fq} L{s.node.lineno}: text I/O passes newline=''")
+                continue
             if s.detail.get("via") != "open":
                 continue
             call = s.node
